@@ -53,3 +53,22 @@ package crypto
 //@        && tagof(et) == tag_of_etype(eti2_etype(bytes(pas[j].PADataValue))) && bytes(salt) == eti2_salt(bytes(pas[j].PADataValue))
 //@        && (len(eti2_s2kp(bytes(pas[j].PADataValue))) == 4 ==> sk2p == hexenc(eti2_s2kp(bytes(pas[j].PADataValue))))
 //@        && (len(eti2_s2kp(bytes(pas[j].PADataValue))) != 4 ==> len(sk2p) == 0)
+
+// Property C05, interoperability: whatever an implementation of the RFC composition produces (msg_enc, for any
+// confounder of the etype's size) is accepted by the decryption condition the library implements (msg_dec_ok) and
+// decrypts to the message (for des3 with the zero padding RFC 3961 prescribes). Proved from the specification:
+// cipher-mode inverses, lengths of MACs, laws of sequences. Together with the two message contracts of the etype
+// interface this is: library-decrypt(RFC-encrypt(m)) = m and RFC-decrypt(library-encrypt(m)) = m.
+//@ func crypto.lemmaRoundTrip(e, key, conf, msg, usage)
+//@   pure
+//@   requires et_known(tagof(e)) && len(conf) == et_confounder(tagof(e)) && len(msg) >= 1 && len(msg) < 1073741824
+//@   ensures msg_dec_ok(tagof(e), bytes(key), usage, msg_enc(tagof(e), bytes(key), usage, bytes(conf), bytes(msg), len(msg)))
+//@   ensures tagof(e) != typeid("crypto.Des3CbcSha1Kd") ==> msg_dec_pt(tagof(e), bytes(key), usage, msg_enc(tagof(e), bytes(key), usage, bytes(conf), bytes(msg), len(msg))) == bytes(msg)
+//@   ensures tagof(e) == typeid("crypto.Des3CbcSha1Kd") ==> msg_dec_pt(tagof(e), bytes(key), usage, msg_enc(tagof(e), bytes(key), usage, bytes(conf), bytes(msg), len(msg)))
+//@        == seqsub(zpad8(seqcat(bytes(conf), bytes(msg)), 8 + len(msg)), 8, len(zpad8(seqcat(bytes(conf), bytes(msg)), 8 + len(msg))))
+
+// Vacuity canary (must NOT be provable): decrypting an encryption does not give the confounder back.
+//@ func crypto.lemmaCanaryRoundTrip(e, key, conf, msg, usage)
+//@   pure
+//@   requires et_known(tagof(e)) && len(conf) == et_confounder(tagof(e)) && len(msg) >= 1 && len(msg) < 1073741824
+//@   ensures tagof(e) != typeid("crypto.Des3CbcSha1Kd") ==> msg_dec_pt(tagof(e), bytes(key), usage, msg_enc(tagof(e), bytes(key), usage, bytes(conf), bytes(msg), len(msg))) == bytes(conf)
